@@ -4,7 +4,7 @@ import essa
 CHECKS = {
     "C04": ecs.run,
     "C05": ecs.run,
-    "C14": ecs.run,
+    "C14": essa.c14,
     "C06": essa.c06,
     "C08": essa.c08,
     "C01": essa.c01,
